@@ -252,6 +252,17 @@ impl SessionStorageBackend for SqliteSessionStore {
     /// The server-side state is left unchanged.
     #[tracing::instrument(name = "Change id for server-side session record", level = tracing::Level::INFO, skip_all)]
     async fn change_id(&self, old_id: &SessionId, new_id: &SessionId) -> Result<(), ChangeIdError> {
+        // An expired record that hasn't been purged yet must not get in the way:
+        // as far as callers are concerned, there is no session associated with the new id.
+        sqlx::query(
+            "DELETE FROM sessions \
+            WHERE id = ? AND deadline <= unixepoch()",
+        )
+        .bind(new_id.inner().to_string())
+        .execute(&self.0)
+        .await
+        .map_err(|e| ChangeIdError::Other(e.into()))?;
+
         let query = sqlx::query(
             "UPDATE sessions \
             SET id = ? \
